@@ -191,3 +191,67 @@ Definition tree_dom (d : list node) : dom :=
        let one := fun next => match chain d next 1 x with y :: _ => mem S0 y | [] => false end in
        let all := fun next => existsb (mem S0) (chain d next (length d) x) in
        if k =? 1 then one n_par else if k =? 2 then one n_prev else if k =? 3 then all n_prev else all n_par).
+
+(* ------------------------------------------------------------------ *)
+(* pass 2 without :is() and with several parents: the cross product.
+   The Go loop substitutes, for every index vector (one dimension per "&"
+   met while substituting; the dimensions are discovered during the first
+   round, in which every index is 0), every "&" of every selector of the
+   nested rule by the parent selector the vector picks.  The pseudo-class
+   nodes of the nested rule are shared between the rounds and the substitution
+   writes its result back into them, so after the first round the "&" inside
+   :is()/:not() arguments are gone: they stay replaced by the FIRST parent in
+   every later round, while their dimensions remain (duplicated selectors).
+   This is modelled literally (freeze_x). *)
+Fixpoint l2l (l : sellist) : list complex := match l with LNil => [] | LCons x r => x :: l2l r end.
+
+Fixpoint count_amp_c (c : compound) : nat := match c with Cp _ a _ s => ((if a then 1 else 0) + count_amp_s s)%nat end
+with count_amp_s (s : sublist) : nat :=
+  match s with SNil => O | SClass _ r => count_amp_s r | SPc _ l r => (count_amp_l l + count_amp_s r)%nat end
+with count_amp_x (cx : complex) : nat := match cx with XNil => O | XCons c r => (count_amp_c c + count_amp_x r)%nat end
+with count_amp_l (l : sellist) : nat := match l with LNil => O | LCons cx r => (count_amp_x cx + count_amp_l r)%nat end.
+
+Fixpoint freeze_x (p0 : complex) (cx : complex) : complex :=
+  match cx with
+  | XNil => XNil
+  | XCons (Cp k a t s) r => XCons (Cp k a t (sb_s p0 s)) (freeze_x p0 r)
+  end.
+
+Fixpoint expand_x (parents : list complex) (v : list nat) (cx : complex) (results : complex) : complex :=
+  match cx with
+  | XNil => results
+  | XCons (Cp k a t s) r =>
+    if a then
+      match v with
+      | i :: v' => expand_x parents v' r (subst_amp (nth i parents XNil) false k t s results)
+      | [] => expand_x parents [] r (subst_amp (nth O parents XNil) false k t s results)
+      end
+    else expand_x parents v r (xsnoc results (Cp k false t s))
+  end.
+
+(* the index vectors in the order of the "addition with carry" (last dimension fastest) *)
+Fixpoint vectors (np d : nat) : list (list nat) :=
+  match d with
+  | O => [[]]
+  | S d' => flat_map (fun i => map (cons i) (vectors np d')) (seq 0 np)
+  end.
+
+Definition lower_expand (parents child : sellist) : list complex :=
+  let ps := l2l parents in
+  let inj := map inject_amp (l2l child) in
+  let d := fold_left Nat.max (map count_amp_x inj) O in
+  let ch := map (freeze_x (nth O ps XNil)) inj in
+  flat_map (fun v => map (fun cx => expand_x ps v cx XNil) ch) (vectors (length ps) d).
+
+(* specificity (ids, classes, types); :is()/:not() count as their most specific argument *)
+Definition spec3 := (nat * nat * nat)%type.
+Definition spec_add (a b : spec3) : spec3 := let '(a1, a2, a3) := a in let '(b1, b2, b3) := b in ((a1 + b1)%nat, (a2 + b2)%nat, (a3 + b3)%nat).
+Definition spec_ltb (a b : spec3) : bool :=
+  let '(a1, a2, a3) := a in let '(b1, b2, b3) := b in
+  (a1 <? b1)%nat || ((a1 =? b1)%nat && ((a2 <? b2)%nat || ((a2 =? b2)%nat && (a3 <? b3)%nat))).
+Definition spec_max (a b : spec3) : spec3 := if spec_ltb a b then b else a.
+Fixpoint spec_c (c : compound) : spec3 := match c with Cp _ _ t s => spec_add (match t with Some _ => (O, O, 1%nat) | None => (O, O, O) end) (spec_s s) end
+with spec_s (s : sublist) : spec3 :=
+  match s with SNil => (O, O, O) | SClass _ r => spec_add (O, 1%nat, O) (spec_s r) | SPc _ l r => spec_add (spec_l l) (spec_s r) end
+with spec_x (cx : complex) : spec3 := match cx with XNil => (O, O, O) | XCons c r => spec_add (spec_c c) (spec_x r) end
+with spec_l (l : sellist) : spec3 := match l with LNil => (O, O, O) | LCons cx r => spec_max (spec_x cx) (spec_l r) end.
